@@ -211,7 +211,7 @@ def dtype_variants(ck, train, what_prefix=""):
                 ck.count("dtype_variant_rejected")
                 continue
             ck.count("dtype_variant_checks")
-            if tuple(y.shape) != tuple(ref.shape) or float((y.double() - ref.double()).abs().max()) > 2e-2:
+            if tuple(y.shape) != tuple(ref.shape) or not (float((y.double() - ref.double()).abs().max()) <= 2e-2):
                 ck.disagree("the output on a 0/1 batch depends on the dtype the batch is stored in", {"layer": name, "dtype": str(dt), "train": train},
                             expected=ref.reshape(-1)[:6].tolist(), observed=y.double().reshape(-1)[:6].tolist(),
                             signature={"what": what_prefix + "dtype", "layer": name})
